@@ -111,7 +111,8 @@ Section MStep.
     - destruct (m_told_ok _ _ M) as [c Hc]; [congruence |]. exists c. auto.
     - rewrite Ht in Ex. destruct x; try discriminate Ex.
       pose proof H as H2. rewrite Ee in H2. clear Ee. cbn [stepr] in H2. unfold step_told in H2. chks H2.
-      match goal with Hx : _ || _ || _ = true |- _ => rename Hx into CJ end.
+      match goal with Hx : _ || _ || _ || _ = true |- _ => rename Hx into CJ end.
+      apply orb_true_iff in CJ. destruct CJ as [CJ | CD]; [| exfalso; b2p; unfold hasm, F in Hh; congruence].
       apply orb_true_iff in CJ. destruct CJ as [CJ | CJ]; [apply orb_true_iff in CJ; destruct CJ as [CJ | CJ] |].
       + b2p. exists (cn (getc s T) FPcOk). apply Cm'. apply (l_pcok _ _ L Hh). auto.
       + exfalso. b2p. destruct (u_1pcts _ _ U CJ) as [r [ks [m [o [B1 B2]]]]]. apply B2. eapply N1; eauto.
